@@ -271,7 +271,9 @@ type earnOracle struct {
 }
 
 // earnOracles records the values earn's Withdraw computes from the vault
-// (share conversion) for the base message of op.
+// (share conversion) for the base message of op.  The dust decision is taken
+// by the implementation after the strategy withdrawal; it is read off the
+// principal's executed attempt (earnDust).
 func (w *c16World) earnOracles(op c16Op) earnOracle {
 	o := earnOracle{new(big.Int), new(big.Int), new(big.Int), false}
 	ek := w.tApp.GetEarnKeeper()
@@ -288,15 +290,19 @@ func (w *c16World) earnOracles(op c16Op) earnOracle {
 	if c, err := ek.GetVaultAccountValue(ctx, denom, w.addrs[op.P]); err == nil {
 		o.av = c.Amount.BigInt()
 	}
-	if rec, ok := ek.GetVaultShareRecord(ctx, w.addrs[op.P]); ok {
-		rem := rec.Shares.GetShare(denom)
-		if rem.Amount.GTE(sh.Amount) {
-			if d, err := ek.ShareIsDust(ctx, rem.Sub(sh)); err == nil {
-				o.dust = d
-			}
-		}
-	}
 	return o
+}
+
+// earnDust: the principal's remaining shares were removed as dust (the record
+// lost more shares than the withdrawal converts to).
+func (w *c16World) earnDust(op c16Op, eo earnOracle, before *c16View, after sdk.Context) bool {
+	cur := before.earn[op.P][op.A]
+	left := new(big.Int)
+	ek := w.tApp.GetEarnKeeper()
+	if rec, ok := ek.GetVaultShareRecord(after, w.addrs[op.P]); ok {
+		left = rec.Shares.AmountOf(c16Denoms[op.A]).BigInt()
+	}
+	return left.Sign() == 0 && new(big.Int).Sub(cur, eo.ws).Sign() > 0
 }
 
 // coqOp renders the base message (signer = op.P) with the given value of the
@@ -435,6 +441,9 @@ func (w *c16World) genOp(r *Rng, v *c16View, enabled []string) c16Op {
 				op.X = amt.String()
 			case "redeem":
 				op.X = amountNear(r, v.issBal[a.owner][op.A]).String()
+				if r.Chance(1, 2) {
+					op.X = fmt.Sprint(1 + r.Intn(50))
+				}
 			case "block":
 				op.B = r.Intn(c16NUsers)
 				if r.Chance(1, 10) {
@@ -617,8 +626,11 @@ func (w *c16World) genOp(r *Rng, v *c16View, enabled []string) c16Op {
 			}
 			op.P = hs[r.Intn(len(hs))]
 			op.A = pickPos(r, v.earn[op.P])
-			val := new(big.Int).Quo(v.earn[op.P][op.A], Pow10(18))
+			val := v.earnVal[op.P][op.A]
 			op.X = amountNear(r, val).String()
+			if r.Chance(1, 4) && val.Sign() > 0 {
+				op.X = val.String() // the whole value: a fractional remainder of shares is removed as dust
+			}
 		}
 		return op
 	}
